@@ -150,6 +150,14 @@ class _PoisonNumpy:
     def __init__(self, varying=False):
         self.poison_allocs = 0
         self.varying = varying      # library-level proxy: garbage differs from allocation to allocation, like a real heap
+        self.faults = {}            # numpy function name -> countdown: that call raises MemoryError once (injected fault)
+        self.fired = 0
+
+    def arm_fault(self, name, k=1):
+        self.faults[name] = int(k)
+
+    def disarm_faults(self):
+        self.faults.clear()
 
     def _garbage(self):
         """NaN, or - every other allocation of the varying proxy - a large finite value that is never the same twice."""
@@ -183,7 +191,26 @@ class _PoisonNumpy:
         return arr
 
     def __getattr__(self, name):
-        return getattr(np, name)
+        f = getattr(np, name)
+        if self.faults and name in self.faults:
+            proxy = self
+
+            def faulty(*a, **k):
+                c = proxy.faults.get(name)
+                if c is not None:
+                    c -= 1
+                    if c <= 0:
+                        del proxy.faults[name]
+                        proxy.fired += 1
+                        raise MemoryError(f"injected: numpy.{name} could not allocate its result")
+                    proxy.faults[name] = c
+                return f(*a, **k)
+
+            return faulty
+        return f
+
+
+LIBRARY_NUMPY = None
 
 
 def poison_library_namespaces():
@@ -193,9 +220,11 @@ def poison_library_namespaces():
 
     # only modules without Numba-jitted functions: Numba resolves the global ``np`` of a jitted function's module
     # when it compiles a new signature, and must find the real numpy there (so speckit.core is left alone)
+    global LIBRARY_NUMPY
     proxy = _PoisonNumpy(varying=True)
     if getattr(A, "np", None) is np:
         A.np = proxy
+    LIBRARY_NUMPY = proxy
     return proxy
 
 
